@@ -347,11 +347,26 @@ func Worker(t *testing.T, hs map[string]*Harness, pick func(prop string) *Harnes
 	watchdog := time.Duration(envInt("VERIF_WATCHDOG_S", 120)) * time.Second
 	var runStart atomic.Int64
 	var curRun atomic.Int64
+	wallLimit := time.Duration(envInt("VERIF_WALL_LIMIT_S", 600)) * time.Second
 	go func() { // real-time watchdog, outside any bubble
+		lastRun, lastSteps, lastChange := int64(-1), -1, time.Now()
 		for {
 			time.Sleep(time.Second)
 			st := runStart.Load()
-			if st != 0 && time.Since(time.Unix(0, st)) > watchdog {
+			if st == 0 {
+				continue
+			}
+			// progress = the scheduler takes decisions (unsynchronised read: a watchdog only)
+			steps := -1
+			if s := simrt.Current(); s != nil {
+				steps = s.Steps
+			}
+			if r := curRun.Load(); r != lastRun || steps != lastSteps {
+				lastRun, lastSteps, lastChange = r, steps, time.Now()
+			}
+			switch {
+			case time.Since(lastChange) > watchdog:
+				// no scheduling decision for the whole period: the simulator itself is stuck
 				lbl := ""
 				if s := simrt.Current(); s != nil {
 					lbl = s.ParkedLabelsUnsafe()
@@ -361,6 +376,10 @@ func Worker(t *testing.T, hs map[string]*Harness, pick func(prop string) *Harnes
 				n := runtime.Stack(buf, true)
 				os.Stderr.Write(buf[:n])
 				os.Exit(3)
+			case time.Since(time.Unix(0, st)) > wallLimit:
+				// progressing but too slow to wait for: inconclusive, like a step-capped run
+				fmt.Fprintf(os.Stderr, "WALLLIMIT run=%d still running after %v (%d scheduling decisions)\n", curRun.Load(), wallLimit, steps)
+				os.Exit(4)
 			}
 		}
 	}()
